@@ -71,7 +71,7 @@ impl JwkStorageBbsPlusExt for StrongholdStorage {
           .with_source(e)
       })?;
 
-    persist_changes(self.as_secret_manager(), stronghold).await?;
+    persist_new_key(self, stronghold, &kid).await?;
 
     Ok(JwkGenOutput::new(kid, jwk))
   }
